@@ -3,8 +3,9 @@
 From Coq Require Import ZArith NArith List Bool.
 Require Import Webob.Lib.Val Webob.Lib.PyStr Webob.Lib.C09_Utf8 Webob.Model.MultiDict Webob.Spec.ListModel
                Webob.Model.C09_QueryCodec Webob.Spec.C09_FormSpec
-               Webob.Model.C09_Multipart
-               Webob.Proofs.C09_utf8 Webob.Proofs.C09_query Webob.Proofs.C09_getdict Webob.Proofs.C09_multipart.
+               Webob.Model.C09_Multipart Webob.Model.C09_Held
+               Webob.Proofs.C09_utf8 Webob.Proofs.C09_query Webob.Proofs.C09_getdict Webob.Proofs.C09_multipart
+               Webob.Proofs.C09_held.
 Import ListNotations.
 Local Open Scope N_scope.
 
@@ -134,3 +135,36 @@ Proof. reflexivity. Qed.
 Theorem C09_multipart_no_cr_suffices : forall B x, free 13 x = true -> early_free (delimiter B) x = true.
 Proof. exact no_cr_suffices. Qed.
 Print Assumptions C09_multipart_no_cr_suffices.
+
+(* Statefulness: ONE request whose GetDict objects are kept by the caller.  After ANY history of
+   operations through request.GET, through any GetDict handed out earlier (also a stale one, after
+   QUERY_STRING was edited behind its back), and of raw QUERY_STRING assignments, request.GET shows
+   what a brand-new Request parses from the current QUERY_STRING. *)
+Theorem C09_held_history : forall qs0 ops, forallb hq_op_valid ops = true ->
+  let r := fold_left (fun r o => fst (hq_step r o)) ops (mkHq qs0 None []) in
+  fst (hq_view r) = fresh_parse (hq_qs r).
+Proof. exact held_history. Qed.
+Print Assumptions C09_held_history.
+
+(* a successful mutation of ANY such object rewrites QUERY_STRING to that object's new contents (the
+   C08 list-model result), makes it the object request.GET shows and leaves every other GetDict
+   object untouched; a failed mutation (or copy()) changes nothing at all *)
+Theorem C09_held_mutation : forall r i o, hq_ok r -> (i < length (hq_heap r))%nat -> op_valid o = true ->
+  let l' := fst (step_s idn (hq_dict r i) o) in
+  let ret := snd (step_s idn (hq_dict r i) o) in
+  let r' := fst (hq_apply r i o) in
+  snd (hq_apply r i o) = ret /\
+  (is_err ret || is_copy o = true -> r' = r) /\
+  (is_err ret || is_copy o = false ->
+     hq_qs r' = on_change l' /\ fresh_parse (hq_qs r') = Ok l' /\ fst (hq_view r') = Ok l' /\
+     forall j, j <> i -> hq_dict r' j = hq_dict r j).
+Proof. exact held_mutation. Qed.
+Print Assumptions C09_held_mutation.
+
+Theorem C09_held_invariant : forall ops r, hq_ok r -> forallb hq_op_valid ops = true ->
+  hq_ok (fold_left (fun r o => fst (hq_step r o)) ops r).
+Proof. exact hq_history_ok. Qed.
+Print Assumptions C09_held_invariant.
+
+Example C09_hq_ok_initial : forall qs, hq_ok (mkHq qs None []).
+Proof. intros qs. split; [reflexivity|exact I]. Qed.
